@@ -77,7 +77,7 @@ def run(ctx):
     ctx.cov["exhaustive"] = True
     ctx.cov["exhaustive_scope"] = "every abstract cell executed against the implementation, %d seeded concretisation(s) each" % reps
     ctx.cov["constants"] = {"cells": n, "endpoints": 4, "methods": 4, "providers": 2, "client_id_presentations": 11,
-                            "client_secret_presentations": 15, "code_classes": 8}
+                            "client_secret_presentations": 17, "code_classes": 8}
     ctx.cov["antecedents_reached"] = cnt
     ctx.cov["handler_panics"] = s["extra"]["panics"]
     ctx.assumptions += [
